@@ -78,7 +78,9 @@ func (st *State) setHeap(comp string, t Term) {
 	st.heap[comp] = t
 	if st.fx != nil {
 		st.fx.compSort[comp] = t.Sort
-		st.fx.written[comp] = true
+		if !st.fx.freshWrite {
+			st.fx.written[comp] = true
+		}
 	}
 }
 
